@@ -66,6 +66,8 @@ deriving Repr, DecidableEq, Inhabited
 /-- One case: the call, the recipient, the damage, and what the recipient's `Sp.process` needs. -/
 structure Input where
   call : Call
+  /-- issued through `create_ecp_authn_request_response` -/
+  ecp : Bool := false
   rc : Recipient := {}
   tamper : Bool := false
   cfg : Sp.Cfg := {}
@@ -119,8 +121,16 @@ def spObs (i : Input) (s : Seen) (out : Sp.Outcome) : SpObs :=
 def Input.outcome (i : Input) (w : Wire) : Sp.Outcome :=
   Sp.process i.cfg i.env (toSp i.envelope i.content (receive i.rc (i.sent w)))
 
+/-- what the entry point returns -/
+def Input.issue (i : Input) : Except Refusal Issued :=
+  if i.ecp then
+    match createAuthnResponse i.call with
+    | .error e => .error e
+    | .ok iss => ecpWrap iss
+  else createAuthnResponse i.call
+
 def observe (i : Input) : Obs :=
-  match createAuthnResponse i.call with
+  match i.issue with
   | .error _ => { issued := false }
   | .ok iss =>
     { issued := true
@@ -194,8 +204,10 @@ def specConfA (i : Input) (o : Obs) : Bool :=
 def specConfAdv (i : Input) (o : Obs) : Bool :=
   !(effAdv i.call && o.issued) || (!o.leak.adviceAssertion && !o.leak.attrsAdvice)
 
-/-- S3: every combination of the flags yields a Response. -/
-def specIssued (i : Input) (o : Obs) : Bool := !wellPosed i.call || o.issued
+/-- S3: every combination of the flags yields a Response.  (Not demanded of the ECP entry point: it raises
+    whenever the Response has been turned into text, i.e. whenever anything was signed or encrypted - the model
+    follows the code there, and a refusal leaks nothing.) -/
+def specIssued (i : Input) (o : Obs) : Bool := !wellPosed i.call || i.ecp || o.issued
 
 /-- S4: whatever is sealed is sealed for one of the recipient's certificates the call designates. -/
 def specKey (i : Input) (o : Obs) : Bool :=
@@ -239,6 +251,17 @@ def specClauses (i : Input) (o : Obs) : List (String × Bool) :=
 def spec (i : Input) (o : Obs) : Bool :=
   specConfA i o && specConfAdv i o && specIssued i o && specKey i o && specRecover i o &&
   specWrongKey i o && specCorrupt i o && specOrder i o
+
+/-! ### where a flag comes from
+
+  The property speaks of encryption / signing being "requested".  A request can come from the keyword
+  argument, from the idp configuration, or from `param_defaults`; an OMITTED argument stands for the documented
+  signature default of `create_authn_response` - `None` (= ask the configuration) for `sign_response`,
+  `sign_assertion`, `encrypt_assertion`; `False` for `encrypted_advice_attributes`; `True` for
+  `encrypt_assertion_self_contained`.  These are the property's constants; the model takes the CURRENT ones
+  from the regenerated `Gen/EncryptDefaults.lean`, and `C16_entry_defaults` pins the two together. -/
+
+def propSig : Opts Tri := ⟨none, none, none, some false, some true⟩
 
 /-! ### histories
 
